@@ -56,7 +56,7 @@ Definition pytype_to_string (v : value) (c : fieldcfg) : result value :=
   | PTDate =>
     match v with
     | VDate d => do s <- strftime_m (f_datefmt c) d; Ok (VStr s)
-    | VStr s => match parse_iso s with          (* _get_date_from_string: canonical ISO strings only *)
+    | VStr s => match parse_iso_any s with      (* _get_date_from_string: the plain ISO 8601 spellings only *)
                 | Some d => do t <- strftime_m (f_datefmt c) d; Ok (VStr t)
                 | None => Unmodelled
                 end
